@@ -629,8 +629,58 @@ def _python_primitives(rep, d, tier):
                 os.chmod(rd / "replay.sh", 0o755)
                 rep.counterexample(f"py:{c.op}", f"[py] {c.op} offset={c.off} length={c.n} extra={c.extra}: {detail}; inputs={inp} :: {how[:200]}", str(rd), ok)
     rep.extra["per_primitive_python"] = {k: dict(v, wall=round(v["wall"], 1)) for k, v in sorted(per.items())}
+    _python_history(rep, out)
     rep.functions.append("Python: nunavut_support.Serializer.add_aligned_*/add_unaligned_*/pad_to_alignment/_unsigned_to_bytes/_float_to_bytes, "
                          "Deserializer.fetch_aligned_*/fetch_unaligned_*/_unsigned_from_bytes, ZeroExtendingBuffer.get_byte/get_unsigned_slice (pysym, numpy stand-in)")
+
+
+_PY_SEQ = r'''
+import sys, json, struct, math
+sys.path.insert(0, sys.argv[1])
+import numpy as np, nunavut_support as ns
+bad = []; n = 0
+vals = [0.0, -0.0, 0.0, -0.0, 1.5, -1.5, 1.5, math.inf, -math.inf, 65504.0, -65504.0, 0.0]
+for w, fmt in ((16, "<e"), (32, "<f"), (64, "<d")):
+    for off in (0, 3):
+        for v in vals:                       # ONE process: what a helper remembers from an earlier value must not show in a later one
+            s = ns.Serializer.new(16); s._bit_offset = off
+            getattr(s, ("add_aligned_f%d" if off == 0 else "add_unaligned_f%d") % w)(v)
+            got = int.from_bytes(bytes(s._buf), "little") >> off
+            exp = int.from_bytes(struct.pack(fmt, v), "little")
+            n += 1
+            if got != exp: bad.append("add_%saligned_f%d(%r) after %d earlier calls: wrote %#x, expected %#x" % ("" if off == 0 else "un", w, v, n - 1, got, exp))
+            d = ns.Deserializer.new([memoryview(bytearray(struct.pack(fmt, v)))])
+            back = getattr(d, "fetch_aligned_f%d" % w)()
+            n += 1
+            if struct.pack("<d", back) != struct.pack("<d", v): bad.append("fetch_aligned_f%d of %r gives %r" % (w, v, back))
+for seq in ([(5, 3), (-1, 9), (5, 3), (0, 64), (2**63, 64), (5, 3)],):
+    for v, bl in seq:
+        s = ns.Serializer.new(16); s._bit_offset = 5
+        s.add_unaligned_unsigned(v % (1 << bl), bl) if v >= 0 else s.add_unaligned_signed(v, bl)
+        got = (int.from_bytes(bytes(s._buf), "little") >> 5) & ((1 << bl) - 1); n += 1
+        if got != v % (1 << bl): bad.append("add_unaligned(%d, %d) in sequence wrote %#x" % (v, bl, got))
+print(json.dumps(dict(n=n, bad=bad[:10])))
+'''
+
+
+def _python_history(rep, out):
+    """what the support module's helpers remember between calls (memoisation) is invisible to the per-call symbolic cases: a CONCRETE sequence of
+    calls in one real process (+0.0 then -0.0 then +0.0 at each float width, aligned and unaligned, and a few integers), labelled as such"""
+    import subprocess
+    env = {k: v for k, v in os.environ.items() if k != "PYTHONPATH"}
+    p = subprocess.run([common.PY, "-c", _PY_SEQ, str(out)], stdout=subprocess.PIPE, stderr=subprocess.PIPE, text=True, env=env)
+    if p.returncode != 0 or not p.stdout.strip():
+        rep.unknown("py:history", "sequence driver failed: " + p.stderr[-300:])
+        return
+    r = json.loads(p.stdout.strip().splitlines()[-1])
+    rep.extra["python_call_sequences"] = dict(native_calls_in_one_process=r["n"], violations=len(r["bad"]), kind="concrete run (real numpy), not a solver verdict")
+    for b in r["bad"]:
+        rd = common.replay_dir("C14", dict(pyseq=b))
+        (rd / "replay.sh").write_text("#!/bin/bash\necho " + json.dumps("sequence of Serializer/Deserializer calls in one Python process: " + b) + "; exit 11\n")
+        os.chmod(rd / "replay.sh", 0o755)
+        rep.counterexample("py:history", "[py] call sequence in one process: " + b, str(rd), True)
+    if not r["bad"]:
+        rep.discharged(1, key="py:history", sample=dict(target="py", check="call sequences in one process", native_calls=r["n"], verdict="all as specified (concrete run)"))
 
 
 def _replay_py_cli(path: str) -> int:
